@@ -460,7 +460,7 @@ pub fn run(tier: Tier) -> i32 {
     let mut tables: Vec<([usize; 3], bool)> = (0..nv * nv * nv).map(|k| ([k % nv, (k / nv) % nv, k / (nv * nv)], false)).collect();
     let globals: Vec<([usize; 3], bool)> = tables.iter().filter(|(idx, _)| idx[2] != 0).map(|(idx, _)| (*idx, true)).collect();
     tables.extend(globals);
-    let thin = tier.pick(2, 1);
+    let thin = tier.pick(1, 1);
     tables.par_iter().enumerate().for_each(|(ti, (idx, c_global))| {
         let table: [Option<&str>; 3] = [VALUES[idx[0]], VALUES[idx[1]], VALUES[idx[2]]];
         let mut set = AliasSet::new();
